@@ -41,14 +41,15 @@ def run(ctx):
     log = {"batch": [], "run": []}
     o_call, o_run = CphotAng.__dict__["__call__"], CphotAng.__dict__["run"]
 
-    def p_call(self, betaE, alt, E, lat, lon, cloudf=None):
-        r = o_call(self, betaE, alt, E, lat, lon, cloudf)
+    # (signature-transparent probes: a change may add arguments to these internal entry points)
+    def p_call(self, betaE, alt, E, lat, lon, *a, **k):
+        r = o_call(self, betaE, alt, E, lat, lon, *a, **k)
         log["batch"].append({"in": [np.array(x, copy=True) for x in (betaE, alt, E, lat, lon)], "out": [np.array(x, copy=True) for x in r], "det": self.detector_altitude})
         return r
 
-    def p_run(self, betaE, alt, E, lat, lon, cloudf=None):
+    def p_run(self, betaE, alt, E, *a, **k):
         log["run"].append((float(betaE), float(alt), float(E)))
-        return o_run(self, betaE, alt, E, lat, lon, cloudf)
+        return o_run(self, betaE, alt, E, *a, **k)
 
     CphotAng.__call__ = p_call
     CphotAng.run = p_run
@@ -73,6 +74,11 @@ def run(ctx):
                     hostile = [-1e-9, 0.0, 20.0, np.nextafter(20.0, 21), 20 + 1e-9, np.inf, -5.0, 1e3, np.nextafter(0.0, -1), -np.inf]
                     pos = rng.choice(n, len(hostile), replace=False)
                     alt[pos] = hostile
+                    # out-of-range decays whose geometry is degenerate as well: below ground on a grazing
+                    # track (the propagation angle is undefined there), at / above the detector
+                    rest = np.setdiff1d(np.arange(3, n), pos)[:6]
+                    alt[rest] = [-1.0, -5.0, -100.0, -0.1, float(det), float(det) + 1.0][: rest.size]
+                    beta[rest] = np.radians([0.5, 1.0, 5.0, 0.0, 3.0, 10.0])[: rest.size]
                     E = 10 ** rng.uniform(-4, 3.5, n)
                     lat, lon = rng.uniform(-1.5, 1.5, n), rng.uniform(-3.1, 3.1, n)
                     inr = (alt >= 0) & (alt <= 20)
